@@ -59,28 +59,28 @@ func (p propSpec) allowUnsupported(h string) bool {
 var properties = map[string]propSpec{
 	"C01": {
 		Bounds: [2]map[string]any{
-			{"rows": "0..3 (comparison), 0..2 (boolean shapes, IN, BETWEEN, strings), 0..1 (LIKE)", "constants": "any finite non-negative float64 literal / any string ≤2 bytes", "cells": "any non-NaN float64; any byte string ≤2 (≤3 for LIKE subjects over a pattern-derived alphabet)", "predicates": "6 comparison operators × both orientations; 6 boolean shapes × 36 operator pairs; [NOT] IN lists of 1..3; [NOT] BETWEEN; 30 LIKE patterns × [NOT]; 6 IS forms"},
+			{"rows": "0..3 (comparison), 0..2 (boolean shapes, IN, BETWEEN, strings), 0..1 (LIKE)", "constants": "any finite non-negative float64 literal / any string ≤2 bytes", "cells": "any non-NaN float64; any byte string ≤2 (≤3 for LIKE subjects over a pattern-derived alphabet)", "predicates": "6 comparison operators × both orientations, negative and computed comparands; 6 boolean shapes × 36 operator pairs; [NOT] IN lists of 1..3 and IN over a root subquery of 0..2 rows; [NOT] BETWEEN (numbers, strings); 30 LIKE patterns × [NOT] plus every LIKE pattern ≤3 bytes over {a b % _ .} against every subject ≤2 bytes over {a b A .}; 6 IS forms"},
 			{"rows": "one more row in every harness", "constants": "same", "cells": "same", "predicates": "same"},
 		},
 		Outside: []string{"predicates outside the template list (depth > 3)", "LIKE patterns outside the 30 listed", "negative literals (the parser turns them into unary minus; covered under C02)", "NaN cells", "mixed-kind columns", "IN over a subquery (covered under C07)"},
 	},
 	"C02": {
 		Bounds: [2]map[string]any{
-			{"rows": "0..2 (0..1 nested)", "operands": "any non-NaN float64; for DIV % & | ^ << >> ~ |operand| < 2^62, divisor/modulus non-zero, shift count 0..63", "expressions": "+ - * / on columns and constants, nesting depth 2, unary - ~ !, CASE with 1-2 WHEN and optional ELSE, 6 key-set forms"},
+			{"rows": "0..2 (0..1 nested)", "operands": "any non-NaN float64; for DIV % & | ^ << >> ~ |operand| < 2^62, divisor/modulus non-zero, shift count 0..63", "expressions": "+ - * / on columns and constants, nesting depth 2, 4 precedence/associativity forms, unary - ~ !, CASE with 1-2 WHEN and optional ELSE, 6 key-set forms"},
 			{"rows": "0..3", "operands": "same", "expressions": "same"},
 		},
 		Outside: []string{"operands outside ±2^62 for the integer operators", "division by zero", "expression depth > 2", "math.Mod is an uninterpreted function on symbolic operands"},
 	},
 	"C03": {
 		Bounds: [2]map[string]any{
-			{"rows": "0..3 (0..2 with two grouping columns / NULLs)", "cells": "any non-NaN float64, optional NULL values", "queries": "GROUP BY 1-2 columns with COUNT(*) SUM MIN MAX AVG, WHERE, HAVING COUNT(*) > 1; whole-table aggregates with/without WHERE; same function on two columns", "map iteration": "every order at ExecGroupBy's map ranges"},
+			{"rows": "0..3 (0..2 with two grouping columns / NULLs)", "cells": "any non-NaN float64, optional NULL values", "queries": "GROUP BY 1-2 columns with COUNT(*) COUNT(col) SUM MIN MAX AVG, WHERE, HAVING on COUNT/SUM/MIN, ORDER BY over groups; whole-table aggregates with/without WHERE; same function on two columns", "map iteration": "every order at ExecGroupBy's map ranges"},
 			{"rows": "0..4 (0..3)", "cells": "same", "queries": "same", "map iteration": "same"},
 		},
 		Outside: []string{"aggregates over strings", "NaN group keys", "SUM's ParseFloat(Sprintf(x)) round trip is an axiom (shortest-representation guarantee)"},
 	},
 	"C04": {
 		Bounds: [2]map[string]any{
-			{"sides": "|l| 0..2, |r| 0..2 (two-column conditions: ≤3 rows in total); PARALLEL: ≤3 rows in total", "keys": "any non-NaN float64 except -0 (opaque key text), or strings ≤1 byte over {a,b} for the single-column conditions", "joins": "JOIN/LEFT/RIGHT × plain/HASH_JOIN/STRAIGHT_JOIN(inner) × 9 ON conditions (=, flipped, two-column in both orders, <, !=, OR, mixed, >=)", "schedules": "PARALLEL variants: every schedule with ≤1 preemption at synchronisation granularity, race monitor on", "map iteration": "every order at the join loops"},
+			{"sides": "|l| 0..2, |r| 0..2 (two-column conditions: ≤3 rows in total); PARALLEL: ≤3 rows in total", "keys": "any non-NaN float64 except -0 (opaque key text), or strings ≤1 byte over {a,b} for the single-column conditions", "joins": "JOIN/LEFT/RIGHT × plain/HASH_JOIN/STRAIGHT_JOIN(inner) × 9 ON conditions (=, flipped, two-column in both orders, <, !=, OR, mixed, >=); two-column joins on the integer keys {1,2,3,12,23} whose texts can be confused", "schedules": "PARALLEL variants: every schedule with ≤1 preemption at synchronisation granularity, race monitor on", "map iteration": "every order at the join loops"},
 			{"sides": "|l| 0..3, |r| 0..2; PARALLEL ≤4 rows in total", "keys": "same", "joins": "same", "schedules": "≤2 preemptions", "map iteration": "same"},
 		},
 		Outside: []string{"INTO grouping joins", "more than two tables", "NaN keys", "SHA-256 collision freedom and injectivity of base64 are assumed for the hash keys"},
@@ -94,14 +94,14 @@ var properties = map[string]propSpec{
 	},
 	"C06": {
 		Bounds: [2]map[string]any{
-			{"rows": "DISTINCT: 0..3 numeric rows × 2 columns, 0..2 string rows (≤3 bytes over {' ',':','b'}); UNION: branches of 0..2 rows, 2 and 3 branches, UNION/UNION ALL mixes, LIMIT 0..10"},
+			{"rows": "DISTINCT: 0..3 numeric rows × 2 columns, 0..2 string rows (≤3 bytes over {' ',':','b'}); UNION: branches of 0..2 rows, 2 and 3 branches, UNION/UNION ALL mixes, parenthesised nested unions with their own LIMIT, LIMIT 0..10"},
 			{"rows": "DISTINCT: 0..4 numeric rows; otherwise same"},
 		},
 		Outside: []string{"nested values in DISTINCT rows", "-0 cells", "ORDER BY on a union"},
 	},
 	"C07": {
 		Bounds: [2]map[string]any{
-			{"documents": "0..2 rows × 2 numeric columns; nested arrays of 0..2 rows", "pipelines": "4 inner × 5 outer queries × {CTE, aliased derived table, chained CTEs}; select-list subquery, IN (SELECT), EXISTS (constant and correlated), `<-` root reference"},
+			{"documents": "0..2 rows × 2 numeric columns; nested arrays of 0..2 rows", "pipelines": "5 inner (incl. whole-table aggregates) × 5 outer queries × {CTE, aliased derived table, chained CTEs}; a CTE referenced twice, a CTE joined with itself, a three-stage chain; select-list subquery, IN (SELECT), EXISTS (constant and correlated), `<-` root reference"},
 			{"documents": "0..3 rows", "pipelines": "same"},
 		},
 		Outside: []string{"pipelines longer than three stages", "CTE column paths beyond the listed shapes"},
@@ -115,7 +115,7 @@ var properties = map[string]propSpec{
 	},
 	"C09": {
 		Bounds: [2]map[string]any{
-			{"indexes": "any int in [0,2^31) (as ReadIndex yields), range bounds any int in [-1,2^31)", "arrays": "length 0..3, ragged arrays of arrays (outer 0..2 × inner 0..2)", "selectors": "27 selector texts covering every documented form on a document with symbolic leaves and a symbolic-length array"},
+			{"indexes": "any int in [0,2^31) (as ReadIndex yields), range bounds any int in [-1,2^31)", "arrays": "length 0..3, ragged arrays of arrays (outer 0..2 × inner 0..2)", "selectors": "27 selector texts covering every documented form on a document with symbolic leaves and a symbolic-length array; 9 selector texts evaluated twice on independent documents and over ragged arrays (selector cache reuse)"},
 			{"indexes": "same", "arrays": "same", "selectors": "same"},
 		},
 		Outside: []string{"arbitrary byte strings as selectors: tokenisation is three Go regexps, executed natively on concrete text only"},
@@ -129,27 +129,27 @@ var properties = map[string]propSpec{
 	},
 	"C11": {
 		Bounds: [2]map[string]any{
-			{"documents": "0..2 rows × nested arrays of 1..2 rows", "queries": "12 templates (filters, subqueries, EXISTS, CTE, joins, ORDER BY, aggregates, DISTINCT) × with/without Wrapped()", "faults": "a user function failing at its k-th invocation, k = none,1,2,3"},
+			{"documents": "0..2 rows × nested arrays of 1..2 rows", "queries": "16 templates (filters, subqueries, EXISTS, CTE on SELECT / on UNION / in a derived table / in an IN-subquery, joins, ORDER BY, aggregates, DISTINCT) × with/without Wrapped()", "faults": "a user function failing at its k-th invocation, k = none,1,2,3"},
 			{"documents": "same", "queries": "same", "faults": "same"},
 		},
 	},
 	"C12": {
 		Bounds: [2]map[string]any{
-			{"documents": "0..2 rows with one nested row", "queries": "18 templates covering every expression form and clause position (tuples, ARRAY, CASE, subqueries, EXISTS, IF/CONCAT, GROUP BY, joins, FIRST/LAST/UNWIND, ASYNC, CTE, derived table, ORDER/LIMIT, SETVAR/GETVAR, DISTINCT, FUSE)", "repetition": "second evaluation on an equal fresh input", "schedules": "≤1 preemption"},
+			{"documents": "0..2 rows with one nested row", "queries": "22 templates (ASYNC inside CTE, derived table and subquery read through SELECT *) covering every expression form and clause position (tuples, ARRAY, CASE, subqueries, EXISTS, IF/CONCAT, GROUP BY, joins, FIRST/LAST/UNWIND, ASYNC, CTE, derived table, ORDER/LIMIT, SETVAR/GETVAR, DISTINCT, FUSE)", "repetition": "second evaluation on an equal fresh input", "schedules": "≤1 preemption"},
 			{"documents": "same", "queries": "same", "repetition": "same", "schedules": "same"},
 		},
 		Outside: []string{"TIMESTAMP (clock)", "AWAIT (its argument is evaluated after the wait; result is schedule dependent but did not reproduce natively in 40 runs)"},
 	},
 	"C13": {
 		Bounds: [2]map[string]any{
-			{"threads": "2 concurrent ExecReader calls (4 selector texts, cold and warm cache); 2 concurrent queries (4 templates) on separate and on one shared document", "schedules": "every schedule with ≤2 (readers) / ≤1 (queries) preemptions at synchronisation granularity; vector-clock happens-before race monitor"},
+			{"threads": "2 concurrent ExecReader calls (4 selector texts, cold and warm cache); 2 concurrent queries (7 templates incl. ASYNC, SPINASYNC and a PARALLEL join) on separate and on one shared document", "schedules": "every schedule with ≤2 (readers) / ≤1 (queries) preemptions at synchronisation granularity; vector-clock happens-before race monitor"},
 			{"threads": "3 readers", "schedules": "≤2 preemptions"},
 		},
 		Outside: []string{"more threads", "effects below happens-before (word tearing)"},
 	},
 	"C14": {
 		Bounds: [2]map[string]any{
-			{"rows": "0..2", "calls": "ASYNC, SPINASYNC+SPIN, ONCE, ASYNC inside a derived table; immediate functions × 3 qualifiers", "schedules": "≤1 preemption"},
+			{"rows": "0..2", "calls": "ASYNC, SPINASYNC+SPIN, ONCE, ASYNC inside a derived table and a subquery, SPINASYNC inside a subquery / derived table / EXISTS / CTE; immediate functions × 3 qualifiers", "schedules": "≤1 preemption"},
 			{"rows": "0..3", "calls": "same", "schedules": "≤2 preemptions"},
 		},
 		Outside: []string{"completion of SPIN calls (not promised)"},
@@ -163,7 +163,7 @@ var properties = map[string]propSpec{
 	},
 	"C16": {
 		Bounds: [2]map[string]any{
-			{"string arguments": "every byte string ≤3 over {' \\ - # blank a \" ; / * NUL 0xC3}", "scalars": "int64 -11..11, 6 float64 values, booleans, NULL × 3 syntactic positions", "templates": "'SELECT '+t+' FROM x' for every t ≤4 bytes over {$ 1 ' \" ` - / * # newline blank a \\}", "argument accounting": "missing, unused, $0, repeated"},
+			{"string arguments": "every byte string ≤3 over {' \\ - # blank a \" ; / * NUL 0xC3}", "scalars": "int64 -11..11, 6 float64 values, booleans, NULL × 3 syntactic positions", "templates": "'SELECT '+t+' FROM x' for every t ≤4 bytes over {$ 1 ' \" ` - / * # newline blank a \\}", "argument accounting": "missing, unused, $0, repeated", "two placeholders": "two string arguments ≤2 bytes each in three positions"},
 			{"string arguments": "≤4 bytes", "scalars": "same", "templates": "≤5 bytes", "argument accounting": "same"},
 		},
 		Outside: []string{"[]byte and time.Time arguments", "the parser and tokenizer run natively on each concretised text: a symbolic query text is concretised byte by byte (bounded enumeration by the solver)"},
@@ -177,20 +177,20 @@ var properties = map[string]propSpec{
 	},
 	"C18": {
 		Bounds: [2]map[string]any{
-			{"arrays": "length 0..3 with optional NULLs", "index": "any float64 in (-2^31, 2^31), fractional and negative included", "functions": "FIRST LAST ELEMENTAT UNWIND ARRAY IF CONCAT CHANGETYPE DATERANGE CONSTANT TO_LOWER TO_UPPER (ASCII, ≤2 bytes) and 9 wrong-arity calls"},
+			{"arrays": "length 0..3 with optional NULLs", "index": "any float64 in (-2^31, 2^31), fractional and negative included", "functions": "FIRST LAST ELEMENTAT UNWIND ARRAY IF CONCAT CHANGETYPE DATERANGE CONSTANT DEFAULTKEY FUSE TO_LOWER TO_UPPER (ASCII, ≤2 bytes) and 9 wrong-arity calls"},
 			{"arrays": "same", "index": "same", "functions": "same"},
 		},
 		Outside: []string{"ENCODE/DECODE (gob reflection) and HASH (md5/sha1/sha512 compression functions) have no model: not applicable to this technique", "TO_LOWER/TO_UPPER beyond ASCII", "CHANGETYPE string↔double round trip is the NumText axiom itself"},
 	},
 	"C19": {
 		Bounds: [2]map[string]any{
-			{"rows": "1..2 rows with one nested row", "fault positions": "17 templates placing a fault-injecting function in WHERE, select list, HAVING, join ON (hash and nested loop), CTE body, derived table, select-list subquery, IN subquery, EXISTS, both UNION branches, RAISE_WHEN, type errors, ORDER BY, GROUP BY", "k": "none, 1..4"},
+			{"rows": "1..2 rows with one nested row", "fault positions": "18 templates placing a fault-injecting function in WHERE, select list, HAVING, join ON (hash and nested loop), CTE body, derived table, select-list subquery, IN subquery, EXISTS, both UNION branches, RAISE_WHEN, type errors, ORDER BY, GROUP BY", "k": "none, 1..4"},
 			{"rows": "1..3", "fault positions": "same", "k": "same"},
 		},
 	},
 	"C20": {
 		Bounds: [2]map[string]any{
-			{"histories": "every select list of 4 SETVAR/GETVAR operations over 2 keys (256 sequences) × 0..2 rows, followed by a second query sharing the map"},
+			{"histories": "every select list of 4 SETVAR/GETVAR operations over 2 keys (256 sequences) × 0..2 rows, followed by a second query sharing the map; every sequence of 3 stores of values of different kinds that print alike (1/'1', true/'true', NULL/'<nil>', symbolic number and string)"},
 			{"histories": "same"},
 		},
 	},
